@@ -2,6 +2,8 @@ import Bmc.Proofs.GenLoops.BuildAndSendCommand
 import Bmc.Proofs.C06
 import Bmc.Proofs.C10
 import Bmc.Lemmas.ApiSessionless
+import Bmc.Proofs.GenLoops.BuildAndSendPayload
+import Bmc.Lemmas.RequestsPacket
 /-! # C06 (the whole datagram), about the session-less `SendCommand` AS REGENERATED on this run -/
 namespace Bmc.Proofs.EndToEnd
 open Bmc Bmc.Wire Bmc.Crypto Bmc.Proto Bmc.GoOrch Bmc.GoLoops Bmc.Gen.Loops Bmc.Lemmas.GenLoops Bmc.Proofs.GenLoops
@@ -28,5 +30,22 @@ theorem generated_sessionless_datagram_parses (c : Proto.Cmd) (hc : c.ent < 4294
   have e : p = (slSerialize c).2 := List.eq_of_mem_replicate hp
   rw [e, slSerialize_packet]
   exact Proofs.C06.packet_parses _ c.lun c.req hop hl hb
+
+/-- … and EVERY datagram `buildAndSendPayload` AS TRANSLATED ON THIS RUN hands to the transport for an RMCP+ set-up payload (Open
+    Session Request 10h, RAKP Message 1 12h, RAKP Message 3 14h — any payload type other than IPMI / OEM-explicit, any payload
+    shorter than 65 536 bytes), retransmissions included, parses as: RMCP header, wrapper with THAT payload type, the null session,
+    no IPMI message, and exactly that payload. -/
+theorem generated_payload_datagram_parses (ptype : UInt8) (payload : Bytes) (hpt : ptype.toNat < 64) (h0 : ptype ≠ 0) (h2 : ptype ≠ 2)
+    (hb : payload.length < 65536) (script : List Outcome) (fuel : Nat) (hfu : script.length + 1 ≤ fuel) (bd : Bytes → Bool)
+    (rsp : Opaque) (ivs : List Bytes) (K : Conn Decoded) :
+    ∀ p ∈ (V2Sessionless_buildAndSendPayload (plWorld payload false bd) fuel (plOf ptype rsp)
+            ({ ivs := ivs, script := script, sent := [] }, K)).2.1.sent,
+      Spec.Req.parsePacket p = some { payloadType := ptype.toNat, sessionID := 0, sequence := 0, ipmi := none, body := payload } := by
+  intro p hp
+  obtain ⟨h1, _⟩ := V2Sessionless_buildAndSendPayload_gen_eq ptype payload script fuel hfu bd rsp ivs [] K
+  simp only [List.nil_append] at h1
+  rw [h1] at hp
+  rw [List.eq_of_mem_replicate hp, Wire.Req.setupDatagram_eq]
+  exact Proofs.C06.payload_packet_parses ptype payload hpt h0 h2 hb
 
 end Bmc.Proofs.EndToEnd
